@@ -50,8 +50,9 @@ CTXS = ('return', 'assign', 'if', 'try', 'with', 'listcomp', 'dictcomp', 'genexp
 NESTED_CTXS = ('nested', 'lambda', 'nested2', 'nested_decoyarg', 'lambda_decoykw', 'lambda_subscript', 'nested_lambda', 'lambda_lambda')
 ROUTES = ('global', 'closure', 'attr', 'self_method', 'self_attr', 'param', 'partial_inner',
           'shadow_posonly', 'shadow_lambda', 'shadow_nested', 'shadow_comp', 'local_rebind', 'missing', 'noncallable',
-          'classmethod_cls')
-UNRESOLVABLE = ('shadow_posonly', 'shadow_lambda', 'shadow_nested', 'shadow_comp', 'local_rebind', 'missing', 'noncallable')
+          'classmethod_cls', 'closure_like_global', 'param_shadow_lambda', 'self_shadow_nested')
+UNRESOLVABLE = ('shadow_posonly', 'shadow_lambda', 'shadow_nested', 'shadow_comp', 'local_rebind', 'missing', 'noncallable',
+                'param_shadow_lambda', 'self_shadow_nested')
 STAR_MODES = ('own', 'none', 'foreign', 'own+f')
 TAINTS = {
     # name: (target, statement template, what reaches the callee afterwards)
@@ -181,9 +182,9 @@ def normalise(prog):
         prog['deco'] = 'none'
     if prog['deco'] == 'autokwoargs' and not any(p.kind == POK and p.default is not None for p in outer):
         prog['deco'] = 'none'
-    if prog['route'] in ('self_method', 'self_attr', 'param', 'classmethod_cls') and prog['deco'] in ('kwoargs', 'autokwoargs', 'wraps', 'wrapping'):
+    if prog['route'] in ('self_method', 'self_attr', 'param', 'classmethod_cls', 'param_shadow_lambda', 'self_shadow_nested') and prog['deco'] in ('kwoargs', 'autokwoargs', 'wraps', 'wrapping'):
         prog['deco'] = 'none'
-    if prog['route'] == 'self_method':
+    if prog['route'] in ('self_method', 'self_shadow_nested'):
         # leaves become methods: only plain functions make sense there
         prog['lkinds'] = ['func' for _ in prog['lkinds']]
     if prog['route'] == 'classmethod_cls':
@@ -420,7 +421,7 @@ def render(prog):
            'def ALT(alt_only, /, *, alt_kw):\n    LOG.append({"__fn__": "ALT"})\n    return "ALT"',
            'def OTHER(o1, o2=2, *, o3=3):\n    return "OTHER"',
            ]
-    as_method = route in ('self_method', 'classmethod_cls')
+    as_method = route in ('self_method', 'classmethod_cls', 'self_shadow_nested')
     leaf_srcs = [_leaf_src(i, l, prog['lkinds'][i], as_method=as_method,
                            deco='@classmethod\n' if route == 'classmethod_cls' else '')
                  for i, l in enumerate(leaves)]
@@ -434,14 +435,16 @@ def render(prog):
             'self_attr': 'self.fn%d' % i, 'param': 'fn%d' % i, 'partial_inner': n,
             'shadow_posonly': n, 'shadow_lambda': n, 'shadow_nested': n, 'shadow_comp': n, 'local_rebind': n,
             'missing': 'MISSING%d' % i, 'noncallable': 'NONCALLABLE', 'classmethod_cls': 'cls.%s' % n,
+            'closure_like_global': 'ALT' if i == 0 else '_c%d' % i,      # the closure variable is spelled like a module global
+            'param_shadow_lambda': 'fn%d' % i, 'self_shadow_nested': 'self.%s' % n,
         }[route]
     has_po = any(p.kind == PO for p in outer)
     first_kind = PO if has_po else POK
-    if route in ('self_method', 'self_attr'):
+    if route in ('self_method', 'self_attr', 'self_shadow_nested'):
         extra_first = [Par('self', first_kind)]
     elif route == 'classmethod_cls':
         extra_first = [Par('cls', first_kind)]
-    elif route == 'param':
+    elif route in ('param', 'param_shadow_lambda'):
         extra_first = [Par('fn%d' % i, first_kind) for i in range(len(leaves))]
     header = universe.spec_text(tuple(extra_first) + tuple(outer))
     # body --------------------------------------------------------------------------
@@ -471,6 +474,12 @@ def render(prog):
             expr = '(lambda L%d: %s)(ALT)' % (c['to'], expr)
         elif route == 'shadow_comp':
             expr = '[%s for L%d in (ALT,)][0]' % (expr, c['to'])
+        elif route == 'param_shadow_lambda':
+            # the lambda's parameter is spelled like the wrapper's (whose value is known through the partial object)
+            expr = '(lambda fn%d: %s)(ALT)' % (c['to'], expr)
+        elif route == 'self_shadow_nested':
+            # a nested function's own `self` is another object
+            expr = '(lambda self: %s)(OTHERSELF)' % expr
         elif route == 'shadow_nested':
             stmts.append(None)
         s = _stmt(c['ctx'], expr, j)
@@ -499,7 +508,10 @@ def render(prog):
     wdef = '%sdef w(%s):\n%s' % (deco, header, _indent(''.join(body)))
     # module layout -----------------------------------------------------------------
     src = '\n'.join(pre) + '\n'
-    if route in ('self_method', 'classmethod_cls'):
+    if route == 'self_shadow_nested':
+        src += ('class _Other(object):\n' + ''.join('    def L%d(self, alt_only, /, *, alt_kw):\n        return "other"\n' % i for i in range(len(leaves)))
+                + 'OTHERSELF = _Other()\n')
+    if route in ('self_method', 'classmethod_cls', 'self_shadow_nested'):
         if route == 'classmethod_cls':
             wdef = '@classmethod\n' + wdef
         src += 'class K(object):\n' + _indent(''.join(leaf_srcs)) + _indent(wdef) + 'TARGET = K().w\nWFUNC = K.__dict__["w"]\n'
@@ -509,15 +521,16 @@ def render(prog):
         src += ''.join(leaf_srcs)
         init = 'def __init__(self):\n' + ''.join('    self.fn%d = L%d\n' % (i, i) for i in range(len(leaves)))
         src += 'class K(object):\n' + _indent(init) + _indent(wdef) + 'TARGET = K().w\nWFUNC = K.__dict__["w"]\n'
-    elif route == 'closure':
+    elif route in ('closure', 'closure_like_global'):
         src += ''.join(leaf_srcs)
-        src += 'def _make():\n' + ''.join('    _c%d = L%d\n' % (i, i) for i in range(len(leaves))) + _indent(wdef) + '    return w\n'
+        cname = (lambda i: 'ALT' if (route == 'closure_like_global' and i == 0) else '_c%d' % i)
+        src += 'def _make():\n' + ''.join('    %s = L%d\n' % (cname(i), i) for i in range(len(leaves))) + _indent(wdef) + '    return w\n'
         src += 'TARGET = WFUNC = _make()\n'
     elif route == 'attr':
         src += ''.join(leaf_srcs)
         src += 'NS = types.SimpleNamespace(sub=types.SimpleNamespace(%s))\n' % ', '.join('L%d=L%d' % (i, i) for i in range(len(leaves)))
         src += wdef + 'TARGET = WFUNC = w\n'
-    elif route == 'param':
+    elif route in ('param', 'param_shadow_lambda'):
         src += ''.join(leaf_srcs) + wdef
         src += 'WFUNC = w\nTARGET = functools.partial(w, %s)\n' % ', '.join('L%d' % i for i in range(len(leaves)))
     elif route == 'noncallable':
@@ -622,7 +635,7 @@ class Built(object):
     def leaf_obj(self, i):
         """The callee object as the wrapper's call expression sees it."""
         route = self.prog['route']
-        if route == 'self_method':
+        if route in ('self_method', 'self_shadow_nested'):
             return getattr(self.target.__self__, 'L%d' % i)
         if route == 'classmethod_cls':
             return getattr(self.g['K'], 'L%d' % i)
